@@ -311,17 +311,32 @@ func collapseNested(fs []*FieldLayout, nestedOf func(f *FieldLayout) (int, int, 
 func elemOf(v *Val) *Val {
 	v = stripCT(v)
 	if v != nil && v.Op == "init" && v.Args[0].Op == "index" {
-		return v.Args[0].Args[0]
+		return sameSlice(v.Args[0].Args[0])
 	}
 	if v != nil && v.Op == "elem" {
-		return v.Args[0]
+		return sameSlice(v.Args[0])
 	}
 	return nil
 }
 
+// sameSlice strips conversions between slice types (a []string handed to a generic helper as its []E): the slice is
+// the same slice.
+func sameSlice(v *Val) *Val {
+	for v != nil && v.Op == "conv" && len(v.Args) == 1 && v.Type != nil && v.Args[0].Type != nil {
+		_, s1 := v.Type.Underlying().(*types.Slice)
+		_, s2 := v.Args[0].Type.Underlying().(*types.Slice)
+		if !s1 || !s2 {
+			break
+		}
+		v = v.Args[0]
+	}
+	return v
+}
+
 // textOf strips string<->[]byte conversions.
 func textOf(v *Val) *Val {
-	for v != nil && v.Op == "conv" && v.Type != nil && isStringOrBytes(v.Type) && v.Args[0].Type != nil && isStringOrBytes(v.Args[0].Type) {
+	// (a value of a type parameter converted to []byte or string can only be text: generic helpers instantiated at string)
+	for v != nil && v.Op == "conv" && v.Type != nil && isStringOrBytes(v.Type) && v.Args[0].Type != nil && (isStringOrBytes(v.Args[0].Type) || isTypeParam(v.Args[0].Type)) {
 		v = v.Args[0]
 	}
 	return stripCT(v)
@@ -353,6 +368,7 @@ type layoutCtx struct {
 	path *Path
 	// subject naming
 	elemOf *Val // when inside a REP body: the list whose elements are subjects
+	tiles  func(ev *Event, n int64) []*FieldLayout // decode: fields assembled from sub-slices of one constant-size read
 	nested map[string][2]int // provisional names "X.#i" of fields of a nested part handled inline -> (X, i)
 }
 
@@ -402,7 +418,7 @@ func irregular(ev *Event, note string) *FieldLayout {
 // encode side
 
 func (c *layoutCtx) extractEnc(evs []*Event) []*FieldLayout {
-	w := wireOnly(evs)
+	w := hoistCommonAlts(wireOnly(evs))
 	var out []*FieldLayout
 	for i := 0; i < len(w); i++ {
 		ev := w[i]
@@ -515,6 +531,9 @@ func (c *layoutCtx) extractEnc(evs []*Event) []*FieldLayout {
 				canon := ""
 				bad := ""
 				for _, arm := range ev.Iter {
+					if c.ct == nil && outsideDomainConds(arm.Conds) {
+						continue // a primitive analysed with symbolic parameters: this alternative needs a negative width
+					}
 					fs := c.extractEnc(arm.Events)
 					cs := (&Layout{Fields: fs}).Canon()
 					if first == nil {
@@ -586,7 +605,7 @@ func byteSubject(src *Val) *Val {
 
 func (c *layoutCtx) elemLayoutEnc(rep *Event, list *Val) *FieldLayout {
 	sub := *c
-	sub.elemOf = list
+	sub.elemOf = sameSlice(stripCT(list))
 	var canon string
 	var first *FieldLayout
 	if len(rep.Iter) == 0 {
@@ -1106,8 +1125,111 @@ func cutsetByte(p *Val) string {
 	return p.Pretty()
 }
 
+// hoistCommonAlts replaces an ALT all of whose arms perform the very same wire events (they differ only in observers,
+// panic sites and conditions – e.g. a count helper with a fast path) by those events.
+func hoistCommonAlts(w []*Event) []*Event {
+	var out []*Event
+	for _, e := range w {
+		if e.Kind == EvAlt && len(e.Iter) > 1 {
+			// an arm taken only when the count just read is zero, which then does nothing more, is the zero-count case
+			// of the arm that goes on to read count elements (reading zero elements is doing nothing more)
+			var keep []*Arm
+			for i, arm := range e.Iter {
+				aw := wireOnly(arm.Events)
+				sub := false
+				if len(aw) > 0 && (aw[len(aw)-1].Kind == EvReadInt || aw[len(aw)-1].Kind == EvWriteInt) && zeroCountArm(arm, aw[len(aw)-1]) {
+					for j, other := range e.Iter {
+						ow := wireOnly(other.Events)
+						if j == i || len(ow) <= len(aw) {
+							continue
+						}
+						pre := true
+						for k := range aw {
+							if ow[k] != aw[k] {
+								pre = false
+							}
+						}
+						if pre {
+							sub = true
+						}
+					}
+				}
+				if !sub {
+					keep = append(keep, arm)
+				}
+			}
+			if len(keep) < len(e.Iter) && len(keep) > 0 {
+				e2 := *e
+				e2.Iter = keep
+				e = &e2
+			}
+		}
+		if e.Kind == EvAlt && len(e.Iter) > 0 {
+			first := wireOnly(e.Iter[0].Events)
+			same := true
+			for _, arm := range e.Iter[1:] {
+				aw := wireOnly(arm.Events)
+				if len(aw) != len(first) {
+					same = false
+					break
+				}
+				for i := range aw {
+					if aw[i] != first[i] {
+						same = false
+					}
+				}
+			}
+			if same {
+				out = append(out, hoistCommonAlts(first)...)
+				continue
+			}
+		}
+		out = append(out, e)
+	}
+	return out
+}
+
+// zeroCountArm: the arm's conditions say that the number delivered by read event r is zero.
+func zeroCountArm(arm *Arm, r *Event) bool {
+	for _, c := range arm.Conds {
+		v := c.V
+		if v.Op != "binop" || len(v.Args) != 2 {
+			continue
+		}
+		for side := 0; side < 2; side++ {
+			x := stripIntConv(v.Args[side])
+			k, isC := v.Args[1-side].Int64()
+			if x == nil || !isC {
+				continue
+			}
+			if r.Kind == EvReadInt {
+				if x.Op != "wire" || x.ID != r.ID {
+					continue
+				}
+			} else {
+				// the count written is T(len(list)): the arm needs len(list) == 0
+				lx := lenArg(r.Src)
+				if lx == nil || !affEq(x, mkLen(lx)) || affOf(x).Top {
+					continue
+				}
+			}
+			op := v.Name
+			if !c.Taken {
+				op = map[string]string{"==": "!=", "!=": "==", "<": ">=", ">=": "<", ">": "<=", "<=": ">"}[op]
+			}
+			if side == 1 {
+				op = map[string]string{"==": "==", "!=": "!=", "<": ">", ">": "<", "<=": ">=", ">=": "<="}[op]
+			}
+			if (op == "==" && k == 0) || (op == "<=" && k == 0) || (op == "<" && k == 1) {
+				return true
+			}
+		}
+	}
+	return false
+}
+
 func (c *layoutCtx) extractDec(evs []*Event, sink func(wireIDs []int, loop int) (name string, idx int, v *Val, ok bool)) []*FieldLayout {
-	w := wireOnly(evs)
+	w := hoistCommonAlts(wireOnly(evs))
 	var out []*FieldLayout
 	for i := 0; i < len(w); i++ {
 		ev := w[i]
@@ -1120,6 +1242,26 @@ func (c *layoutCtx) extractDec(evs []*Event, sink func(wireIDs []int, loop int) 
 			wv := &Val{Op: "wire", ID: ev.ID}
 			if i+1 < len(w) {
 				nx := w[i+1]
+				// a counted run of numbers taken in one read and split by hand: k*count bytes whose value is bulkints
+				if nx.Kind == EvReadBytes && !nx.Failed {
+					if name, idx, v, okS := sink([]int{nx.ID}, 0); okS {
+						if b := stripCT(v); b.Op == "bulkints" && len(b.Args) == 2 && stripCT(b.Args[0]).Op == "wire" && stripCT(b.Args[0]).ID == nx.ID && affEq(b.Args[1], wv) {
+							if st, isSl := b.Type.Underlying().(*types.Slice); isSl {
+								if k, okK := fixedSize(st.Elem()); okK && affOf(nx.Size).Equal(affOf(wv).Scale(k)) {
+									ord := b.Name
+									if k == 1 {
+										ord = ""
+									}
+									f := &FieldLayout{Kind: "list", Prefix: typeStr(ev.IntType), POrder: ev.Order, Name: name, GoField: idx, Pos: rootPos(ev), Ev: []*Event{ev, nx}, WireIDs: []int{ev.ID, nx.ID},
+										Elem: &FieldLayout{Kind: "int", Type: typeStr(st.Elem()), Order: ord, GoField: -1}}
+									out = append(out, f)
+									i++
+									continue
+								}
+							}
+						}
+					}
+				}
 				if nx.Kind == EvReadBytes && !nx.Failed && affEq(nx.Size, wv) {
 					f := &FieldLayout{Kind: "ptext", Prefix: typeStr(ev.IntType), POrder: ev.Order, GoField: -1, Pos: rootPos(ev), Ev: []*Event{ev, nx}, WireIDs: []int{ev.ID, nx.ID}}
 					name, idx, v, ok := sink([]int{nx.ID}, 0)
@@ -1140,26 +1282,6 @@ func (c *layoutCtx) extractDec(evs []*Event, sink func(wireIDs []int, loop int) 
 					out = append(out, f)
 					i++
 					continue
-				}
-				// a counted run of numbers taken in one read and split by hand: k*count bytes whose value is bulkints
-				if nx.Kind == EvReadBytes && !nx.Failed {
-					if name, idx, v, okS := sink([]int{nx.ID}, 0); okS {
-						if b := stripCT(v); b.Op == "bulkints" && len(b.Args) == 2 && stripCT(b.Args[0]).Op == "wire" && stripCT(b.Args[0]).ID == nx.ID && affEq(b.Args[1], wv) {
-							if st, isSl := b.Type.Underlying().(*types.Slice); isSl {
-								if k, okK := fixedSize(st.Elem()); okK && affOf(nx.Size).Equal(affOf(wv).Scale(k)) {
-									ord := b.Name
-									if k == 1 {
-										ord = ""
-									}
-									f := &FieldLayout{Kind: "list", Prefix: typeStr(ev.IntType), POrder: ev.Order, Name: name, GoField: idx, Pos: rootPos(ev), Ev: []*Event{ev, nx}, WireIDs: []int{ev.ID, nx.ID},
-										Elem: &FieldLayout{Kind: "int", Type: typeStr(st.Elem()), Order: ord, GoField: -1}}
-									out = append(out, f)
-									i++
-									continue
-								}
-							}
-						}
-					}
 				}
 				if nx.Kind == EvRep && affEq(nx.Count, wv) && !nx.Partial {
 					f := &FieldLayout{Kind: "list", Prefix: typeStr(ev.IntType), POrder: ev.Order, GoField: -1, Pos: rootPos(ev), Ev: []*Event{ev, nx}, WireIDs: []int{ev.ID}}
@@ -1250,6 +1372,13 @@ func (c *layoutCtx) extractDec(evs []*Event, sink func(wireIDs []int, loop int) 
 						out = append(out, f)
 						continue
 					}
+				}
+			}
+			// several numbers taken out of one read of constant size: ByteOrder.UintN over sub-slices that tile it
+			if nC, okC := affOf(ev.Size).IsConst(); okC && c.tiles != nil {
+				if fs := c.tiles(ev, nC); fs != nil {
+					out = append(out, fs...)
+					continue
 				}
 			}
 			f := &FieldLayout{Kind: "fixed", GoField: -1, Pos: rootPos(ev), Ev: []*Event{ev}, WireIDs: []int{ev.ID}}
@@ -1818,6 +1947,56 @@ func verifyShrink(loop *Event, name string) (string, *Val, bool) {
 		return "right", p, true
 	}
 	return "", nil, false
+}
+
+// manualIntAt: v is T(ByteOrder.UintN(wire#id[lo:hi])) with constant bounds spanning exactly the number; returns lo.
+func manualIntAt(v *Val, id int) (lo int64, it types.Type, ord string, ok bool) {
+	v = stripCT(v)
+	var outer types.Type
+	for v.Op == "conv" && isIntegerType(v.Type) {
+		if outer == nil {
+			outer = v.Type
+		}
+		v = stripCT(v.Args[0])
+	}
+	if v.Op != "call" || len(v.Args) != 1 {
+		return 0, nil, "", false
+	}
+	var k int64
+	for _, o := range []struct{ pfx, o string }{{"(encoding/binary.bigEndian).Uint", "BE"}, {"(encoding/binary.littleEndian).Uint", "LE"}} {
+		if strings.HasPrefix(v.Name, o.pfx) {
+			ord = o.o
+			k = map[string]int64{"16": 2, "32": 4, "64": 8}[strings.TrimPrefix(v.Name, o.pfx)]
+		}
+	}
+	if k == 0 {
+		return 0, nil, "", false
+	}
+	it = map[int64]types.Type{2: types.Typ[types.Uint16], 4: types.Typ[types.Uint32], 8: types.Typ[types.Uint64]}[k]
+	sl := stripCT(v.Args[0])
+	if sl.Op != "slice" || stripCT(sl.Args[0]).Op != "wire" || stripCT(sl.Args[0]).ID != id {
+		return 0, nil, "", false
+	}
+	if sl.Args[1] != nil {
+		l, isC := sl.Args[1].Int64()
+		if !isC {
+			return 0, nil, "", false
+		}
+		lo = l
+	}
+	if sl.Args[2] != nil {
+		// (an open upper bound is fine as well: UintN takes the first N bytes of what it is given)
+		if h, isC := sl.Args[2].Int64(); !isC || h < lo+k {
+			return 0, nil, "", false
+		}
+	}
+	if outer != nil {
+		if osz, okS := fixedSize(outer); !okS || osz != k {
+			return 0, nil, "", false
+		}
+		it = outer
+	}
+	return lo, it, ord, true
 }
 
 // manualCount: v is ByteOrder.UintN(wire#id), possibly widened (never narrowed or sign-changed at equal width), with N
